@@ -535,6 +535,299 @@ def part_table(ck, classes):
     return n_cells, compared, sum(skipped.values()), setups + len(sl)
 
 
+# ---- (a'') lookups with several names ------------------------------------------------------------------------------------------
+#  [Y2'] dependency.yaml (names, since 0.60): "The dependencies are looked up in the order they are provided here. The first found
+#        dependency will then be used. The fallback subproject will be used only if none of the names are found on the system. Once
+#        one of the name has been found, all other names are added into the cache so subsequent calls for any of those name will
+#        return the same value."
+#  [Y5]  dependency.yaml: "Meson can automatically identify a subproject as a fallback if a wrap file provides the dependency" - the
+#        lookup is for all of its names, so a wrap that provides ANY of them is that fallback.
+# Every name of the lookup has a role: absent, on the system (low / high version), provided by the wrap of s<i>, overridden.
+NROLES = ['absent', 'syslo', 'syshi', 'wrap', 'override']
+NFFB = ['none', 'prov', 'sp']          # force_fallback_for: nothing / the name the wrap provides / the subproject
+NAMES_UNSPEC = {
+    'U5': 'several names, one of them overridden by a dependency that fails the version constraint while another name could be satisfied',
+    'U6': 'several names, two of them provided by the wrap: which variable is taken is not described (not generated)',
+}
+
+
+def nsysv(role, j):
+    return {'syslo': '1.%d' % j, 'syshi': '2.%d' % j}.get(role)
+
+
+def decide_names(roles, cons, spv, wm, ffb, req, af):
+    fail = ('error',) if req else ('notfound',)
+    if 'override' in roles:                                                  # [Y1]
+        if satisfies(spv, cons):
+            return ('override', spv)
+        if any(r != 'absent' for r in roles if r != 'override'):
+            return ('unspecified', 'U5')
+        return fail
+    has_fb = 'wrap' in roles and af is not False                             # [Y5] [Y3]
+    forced = has_fb and (wm == 'forcefallback' or ffb in ('prov', 'sp'))     # [S2] [S3]
+    allowed = has_fb and (forced or af is True or req)                       # [Y3] [W1]
+    if wm == 'nofallback' and not forced:                                    # [S1] [S3]
+        allowed = False
+    if not forced:
+        for j, r in enumerate(roles):                                        # [Y2'] in order, the first that is found
+            if satisfies(nsysv(r, j), cons):
+                return ('system', nsysv(r, j))
+    if allowed:                                                              # [Y2'] only if none of the names is on the system
+        return ('subproject', spv) if satisfies(spv, cons) else fail
+    return fail
+
+
+def names_kwargs(cons, req, af):
+    kws = []
+    if cons is not None:
+        kws.append(('version', "'%s'" % cons))
+    if not req:
+        kws.append(('required', 'false'))
+    if af is not None:
+        kws.append(('allow_fallback', 'true' if af else 'false'))
+    return kw_text(kws)
+
+
+def names_cell_files(i, cell, files):
+    roles, cons, spv, req, af = cell
+    nm = ['d%s%s' % (i, 'abc'[j]) for j in range(len(roles))]
+    provided = []
+    body = ["project('c%s')" % i]
+    for j, r in enumerate(roles):
+        if nsysv(r, j):
+            files['pc/%s.pc' % nm[j]] = pc_file(nm[j], nsysv(r, j))
+        elif r == 'wrap':
+            provided.append(nm[j])
+        elif r == 'override':
+            files['subprojects/o%s/meson.build' % i] = "project('o%s', version: '%s')\n%s" % (i, spv, ''.join(
+                "meson.override_dependency('%s', declare_dependency(version: '%s'))\n" % (nm[k], spv) for k, q in enumerate(roles) if q == 'override'))
+    if provided:
+        files['subprojects/s%s/meson.build' % i] = "project('s%s', version: '%s')\n%s" % (i, spv, ''.join(
+            "%s_dep = declare_dependency(version: '%s')\n" % (n, spv) for n in provided))
+        files['subprojects/s%s.wrap' % i] = '[wrap-file]\ndirectory = s%s\n\n[provide]\n%s' % (i, ''.join('%s = %s_dep\n' % (n, n) for n in provided))
+    if 'override' in roles:
+        body.append("subproject('o%s')" % i)
+    body.append("message('VERIF-PRE|%s|0|')" % i)
+    body.append("d = dependency(%s%s)" % (', '.join("'%s'" % n for n in nm), names_kwargs(cons, req, af)))
+    body.append("message('VERIF-RES|%s|0|@0@|@1@|@2@|'.format(d.found(), d.type_name(), d.version()))" % i)
+    # [Y2'] afterwards every single name answers with the same value (asked optionally, so that nothing can abort)
+    for j, n in enumerate(nm):
+        body.append("message('VERIF-PRE|%s|%d|')" % (i, j + 1))
+        body.append("f = dependency('%s'%s)" % (n, names_kwargs(cons, False, af)))
+        body.append("message('VERIF-RES|%s|%d|@0@|@1@|@2@|'.format(f.found(), f.type_name(), f.version()))" % (i, j + 1))
+    return '\n'.join(body) + '\n', provided
+
+
+def names_batch(job):
+    wm, ffb, cells, standalone = job
+    root = fresh_root('nam')
+    files = {'pc/.keep': ''}
+    caps = []
+    ffbn = []
+    for i, cell in cells:
+        body, provided = names_cell_files(i, cell, files)
+        files['meson.build' if standalone else 'subprojects/c%s/meson.build' % i] = body
+        caps.append("'c%s'" % i)
+        if ffb == 'prov':
+            ffbn.extend(provided[:1])
+        elif ffb == 'sp':
+            ffbn.append('s%s' % i)
+    if not standalone:
+        files['meson.build'] = "project('super')\nforeach n : [%s]\n  subproject(n, required: false)\nendforeach\nmessage('VERIF-DONE')\n" % ', '.join(caps)
+    mp.write_tree(root, files)
+    env = mp.base_env(PKG_CONFIG_LIBDIR=os.path.join(root, 'pc'))
+    r = mp.run_meson(setup_argv(wm, ffbn), root, env=env, pre=pre_hook, timeout=600)
+    done = standalone or 'Message: VERIF-DONE' in r.out
+    pre, res = parse_obs(r.out)
+    obs = {i: [obs_of(pre, res, (str(i), k)) for k in range(len(cell[0]) + 1)] for i, cell in cells}
+    shutil.rmtree(root, ignore_errors=True)
+    return done, r.rc, r.unhandled, obs, ('' if done and not r.unhandled else r.out[-1200:])
+
+
+def names_dict(wm, ffb, cell):
+    roles, cons, spv, req, af = cell
+    return {'names': list(roles), 'constraint': cons, 'subproject_version': spv, 'wrap_mode': wm, 'force_fallback_for': ffb,
+            'required': req, 'allow_fallback': af}
+
+
+def judge_names(ck, wm, ffb, cell, obs, where, classes, stats):
+    roles, cons, spv, req, af = cell
+    out = decide_names(roles, cons, spv, wm, ffb, req, af)
+    if out[0] == 'unspecified':
+        return
+    exp = expected_obs(out)
+    stats['compared'] += 1
+    stats['exp'][out[0]] = stats['exp'].get(out[0], 0) + 1
+    first_sys = [j for j, r in enumerate(roles) if nsysv(r, j)]
+    if out[0] == 'subproject' and roles[0] != 'wrap':
+        stats['fallback_through_later_name'] += 1
+    if out[0] == 'system' and first_sys and exp[1] != nsysv(roles[first_sys[0]], first_sys[0]):
+        stats['system_through_later_name'] += 1
+    classes.add(('names', out[0], roles.index('wrap') if 'wrap' in roles and out[0] == 'subproject' else -1))
+    o = obs[0]
+    det = {'part': 'names', 'wrap_mode': wm, 'force_fallback_for': ffb, 'cell': [list(roles), cons, spv, req, af], 'where': where}
+    if o != exp:
+        ck.violation('C10:names:%s:exp-%s:got-%s%s' % ('+'.join(roles), out[0], o[0], ':forced' if wm == 'forcefallback' or ffb != 'none' else ''),
+                     'dependency() with several names, cell %s (%s): documented policy gives %s, meson gives %s' % (names_dict(wm, ffb, cell), where, out, o),
+                     dict(det, expected=list(exp), observed=[list(x) for x in obs]))
+        return
+    if out[0] in ('system', 'subproject', 'override'):
+        for j in range(len(roles)):
+            stats['followups'] += 1
+            if obs[j + 1] != o:
+                ck.violation('C10:names:followup:%s:first-%s:then-%s' % ('+'.join(roles), o[0], obs[j + 1][0]),
+                             'cell %s (%s): the lookup of all names gave %s, a later lookup of name %d alone gives %s ("subsequent calls for any of '
+                             'those name will return the same value")' % (names_dict(wm, ffb, cell), where, o, j + 1, obs[j + 1]),
+                             dict(det, expected=list(exp), observed=[list(x) for x in obs]))
+                break
+
+
+def part_names(ck, classes):
+    maxn = ck.q(2, 3)
+    cells = []
+    for n in range(2, maxn + 1):
+        for roles in itertools.product(NROLES, repeat=n):
+            if roles.count('wrap') > 1:
+                continue                                                     # U6
+            if all(r == 'absent' for r in roles):
+                continue
+            for cons, spv, req, af in itertools.product([None, '>=1.5'], SPV, REQ, AF):
+                cells.append((roles, cons, spv, req, af))
+    jobs = []
+    skipped = {}
+    n_cells = 0
+    for wm in WM:
+        for ffb in NFFB:
+            todo = []
+            for idx, cell in enumerate(cells):
+                if ffb == 'prov' and 'wrap' not in cell[0]:
+                    continue                                                 # nothing to name
+                n_cells += 1
+                out = decide_names(cell[0], cell[1], cell[2], wm, ffb, cell[3], cell[4])
+                if out[0] == 'unspecified':
+                    skipped[out[1]] = skipped.get(out[1], 0) + 1
+                    continue
+                todo.append((idx, cell))
+            for k in range(0, len(todo), 40):
+                jobs.append((wm, ffb, todo[k:k + 40], False))
+    stats = {'compared': 0, 'exp': {}, 'fallback_through_later_name': 0, 'system_through_later_name': 0, 'followups': 0}
+    setups = 0
+    aborted = 0
+    queue = jobs
+    rounds = 0
+    while queue and rounds < 12:
+        rounds += 1
+        nxt = []
+        for (done, rc, unhandled, obs, tail), (wm, ffb, cs, _s) in zip(pmap(names_batch, queue), queue):
+            setups += 1
+            if not done:
+                aborted += 1
+                if len(cs) > 1:
+                    h = len(cs) // 2
+                    nxt += [(wm, ffb, cs[:h], False), (wm, ffb, cs[h:], False)]
+                    continue
+                cell = cs[0][1]
+                ck.violation('C10:names:%s:%s' % ('unhandled-exception' if unhandled else 'setup-aborted', '+'.join(cell[0])),
+                             'meson setup aborted although the lookup sits in subproject(required: false): ' + tail[-300:],
+                             {'part': 'names', 'wrap_mode': wm, 'force_fallback_for': ffb, 'cell': [list(cell[0])] + list(cell[1:]), 'tail': tail})
+                continue
+            for i, cell in cs:
+                judge_names(ck, wm, ffb, cell, obs[i], 'capsule', classes, stats)
+        queue = nxt
+    if queue:
+        ck.internal('names batches did not converge')
+    # stand-alone slice (exit status observable)
+    spec = [(wm, ffb, cell) for wm in WM for ffb in NFFB for cell in cells
+            if not (ffb == 'prov' and 'wrap' not in cell[0]) and decide_names(cell[0], cell[1], cell[2], wm, ffb, cell[3], cell[4])[0] != 'unspecified']
+    nsl = ck.q(32, 96)
+    step = max(1, len(spec) // nsl)
+    sl = spec[(ck.seed * 5) % step::step][:nsl]
+    sstats = {'compared': 0, 'exp': {}, 'fallback_through_later_name': 0, 'system_through_later_name': 0, 'followups': 0}
+    for (done, rc, unhandled, obs, tail), (wm, ffb, cell) in zip(pmap(names_batch, [(wm, ffb, [(0, cell)], True) for wm, ffb, cell in sl]), sl):
+        setups += 1
+        out = decide_names(cell[0], cell[1], cell[2], wm, ffb, cell[3], cell[4])
+        if unhandled or (rc != 0) != (out[0] == 'error'):
+            ck.violation('C10:names:standalone:%s:exp-%s:rc%d%s' % ('+'.join(cell[0]), out[0], rc, ':traceback' if unhandled else ''),
+                         'stand-alone project, cell %s: expected %s, meson setup exit %d: %s' % (names_dict(wm, ffb, cell), out, rc, tail[-300:]),
+                         {'part': 'names', 'wrap_mode': wm, 'force_fallback_for': ffb, 'cell': [list(cell[0])] + list(cell[1:]), 'where': 'standalone'})
+            continue
+        judge_names(ck, wm, ffb, cell, obs[0], 'standalone', set(), sstats)
+    ck.part('names', max_names=maxn, roles=NROLES, force_fallback_for=NFFB, cells=n_cells, compared=stats['compared'],
+            skipped_unspecified=sum(skipped.values()), skipped_by_reason=skipped, setups=setups, aborted_batches=aborted,
+            expected_outcomes=stats['exp'], fallback_through_a_later_name=stats['fallback_through_later_name'],
+            system_through_a_later_name=stats['system_through_later_name'], followup_lookups_compared=stats['followups'],
+            standalone_revalidated=len(sl))
+    for k in ('system', 'subproject', 'override', 'notfound', 'error'):
+        ck.require(stats['exp'].get(k, 0) > 20, 'names part never expects outcome %s' % k)
+    ck.require(stats['fallback_through_later_name'] > 50, 'names part: the wrap never provides a later name only')
+    ck.require(stats['system_through_later_name'] > 50, 'names part: the system never answers through a later name')
+    ck.require(stats['followups'] > 500, 'names part: no follow-up lookups compared')
+    return stats['compared'] + stats['followups'], sum(skipped.values()), setups
+
+
+# ---- (a3) spelling of the name: in a wrap's provide section "<name> = <variable>" is written as the project spells the
+# dependency; the policy does not depend on letter case or punctuation of the name
+SPELL = ['d%sx', 'D%sx', 'Dep%s-X.y', 'dEP_%s+']
+SPELL_FORM = ['wrap', 'fb-list', 'fb-str']
+
+
+def spell_batch(job):
+    wm, cells = job
+    root = fresh_root('spl')
+    files = {'pc/.keep': ''}
+    caps = []
+    for i, (sp, form, sysv, req) in cells:
+        name = sp % i
+        var = 'v%s_dep' % i
+        if sysv:
+            files['pc/%s.pc' % name] = pc_file(name, sysv)
+        files['subprojects/s%s/meson.build' % i] = "project('s%s', version: '2.5')\n%s = declare_dependency(version: '2.5')\n" % (i, var)
+        if form != 'fb-list':
+            files['subprojects/s%s.wrap' % i] = '[wrap-file]\ndirectory = s%s\n\n[provide]\n%s = %s\n' % (i, name, var)
+        kws = [] if req else [('required', 'false')]
+        if form == 'fb-list':
+            kws.append(('fallback', "['s%s', '%s']" % (i, var)))
+        elif form == 'fb-str':
+            kws.append(('fallback', "'s%s'" % i))
+        files['subprojects/c%s/meson.build' % i] = (
+            "project('c%s')\nmessage('VERIF-PRE|%s|0|')\nd = dependency('%s'%s)\n"
+            "message('VERIF-RES|%s|0|@0@|@1@|@2@|'.format(d.found(), d.type_name(), d.version()))\n" % (i, i, name, kw_text(kws), i))
+        caps.append("'c%s'" % i)
+    files['meson.build'] = "project('super')\nforeach n : [%s]\n  subproject(n, required: false)\nendforeach\nmessage('VERIF-DONE')\n" % ', '.join(caps)
+    mp.write_tree(root, files)
+    r = mp.run_meson(setup_argv(wm, []), root, env=mp.base_env(PKG_CONFIG_LIBDIR=os.path.join(root, 'pc')), pre=pre_hook, timeout=600)
+    pre, res = parse_obs(r.out)
+    obs = {i: obs_of(pre, res, (str(i), 0)) for i, _ in cells}
+    shutil.rmtree(root, ignore_errors=True)
+    return 'Message: VERIF-DONE' in r.out, r.unhandled, obs, r.out[-1200:]
+
+
+def part_spell(ck, classes):
+    cells = list(enumerate(itertools.product(SPELL, SPELL_FORM, [None, '1.0'], REQ)))
+    wms = ['default', 'forcefallback', 'nofallback']
+    n = 0
+    differs = 0
+    for (done, unh, obs, tail), wm in zip(pmap(spell_batch, [(wm, cells) for wm in wms]), wms):
+        if not done:
+            ck.violation('C10:spelling:%s' % ('unhandled-exception' if unh else 'setup-aborted'), 'spelling family aborted: ' + tail[-300:],
+                         {'part': 'spell', 'wrap_mode': wm})
+            continue
+        for i, (sp, form, sysv, req) in cells:
+            out, _ = decide(sysv, None, 'wrap' if form == 'wrap' else 'fallback', '2.5', wm, 'none', req, None, downloaded=True)
+            n += 1
+            differs += sp != SPELL[0] and out[0] == 'subproject'
+            classes.add(('spell', out[0], form))
+            if obs[i] != expected_obs(out):
+                ck.violation('C10:spelling:%s:%s:exp-%s:got-%s' % (form, 'lower' if sp == SPELL[0] else 'other', out[0], obs[i][0]),
+                             "dependency('%s') with %s, system %s, required %s, wrap_mode %s: documented policy gives %s, meson gives %s" % (
+                                 sp % 0, {'wrap': 'a wrap [provide] entry', 'fb-list': "fallback: [subproject, variable]",
+                                          'fb-str': "fallback: 'subproject' and the variable from the wrap's [provide] entry"}[form], sysv, req, wm, out, obs[i]),
+                             {'part': 'spell', 'wrap_mode': wm, 'cell': [sp, form, sysv, req]})
+    ck.part('spelling', spellings=[x % 0 for x in SPELL], forms=SPELL_FORM, wrap_modes=wms, compared=n, subproject_expected_for_non_lowercase_names=differs)
+    ck.require(differs > 20, 'spelling family: the fallback is never expected for a name that is not lower case')
+    return n, len(wms)
+
+
 # ---- (a') the same table after a change of policy in an existing build directory -----------------------------------------
 # The policy is a function of the current wrap_mode / force_fallback_for and of what is on disk; what an earlier
 # configuration of the same build directory resolved (and cached) is not an input.
@@ -1390,6 +1683,28 @@ def replay(ck):
         exp = expected_obs(out)
         bad = (not done) or obs.get(0) != exp or o != exp or ((src != 0) != (out[0] == 'error')) or unh or sunh
         sys.exit(1 if bad else 0)
+    if part == 'names':
+        c = d['cell']
+        cell = (tuple(c[0]), c[1], c[2], c[3], c[4])
+        wm, ffb = d['wrap_mode'], d['force_fallback_for']
+        out = decide_names(cell[0], cell[1], cell[2], wm, ffb, cell[3], cell[4])
+        done, rc, unh, obs, tail = names_batch((wm, ffb, [(0, cell)], d.get('where') == 'standalone'))
+        print('cell     :', names_dict(wm, ffb, cell))
+        print('expected :', out)
+        print('observed :', obs.get(0), 'exit', rc, tail[-300:])
+        if out[0] == 'unspecified':
+            sys.exit(0)
+        o = obs[0]
+        bad = (not done) or unh or o[0] != expected_obs(out) or (out[0] in ('system', 'subproject', 'override') and any(x != o[0] for x in o[1:]))
+        sys.exit(1 if bad else 0)
+    if part == 'spell':
+        sp, form, sysv, req = d['cell']
+        done, unh, obs, tail = spell_batch((d['wrap_mode'], [(0, (sp, form, sysv, req))]))
+        out, _ = decide(sysv, None, 'wrap' if form == 'wrap' else 'fallback', '2.5', d['wrap_mode'], 'none', req, None, downloaded=True)
+        print('cell     :', d['cell'], d['wrap_mode'])
+        print('expected :', out)
+        print('observed :', obs.get(0), '' if done else tail[-300:])
+        sys.exit(1 if not done or obs.get(0) != expected_obs(out) else 0)
     if part == 'seq':
         seq = [tuple(x) for x in d['seq']]
         done, unh, obs, tail = seq_batch((d['system'], d['provider'], d['spv'], [(0, seq)]))
@@ -1452,6 +1767,17 @@ def main():
         evals += compared
         skipped += sk
         runs += setups
+    if ck.want('names'):
+        t0 = time.time()
+        n, sk, setups = part_names(ck, classes)
+        ck.part('names', wall_s=round(time.time() - t0, 1))
+        evals += n
+        skipped += sk
+        runs += setups
+    if ck.want('spell'):
+        n, setups = part_spell(ck, classes)
+        evals += n
+        runs += setups
     if ck.want('history'):
         t0 = time.time()
         n, setups = part_hist(ck, classes)
@@ -1488,13 +1814,16 @@ def main():
     ck.assume('system dependencies are pkg-config files (pkg-config 1.8.1 on PATH) in a private PKG_CONFIG_LIBDIR; projects have no language, --backend=none')
     ck.assume('URLs are file:// URLs; time.sleep is a no-op in the meson child (download back-off), urllib.request.urlopen is wrapped by an observer')
     ck.assume('part (c) is fault enumeration over a fixed list of corruption classes and step failures, not a proof over all faults')
-    ck.assume('unspecified corners (skipped, counted): ' + '; '.join('%s: %s' % kv for kv in sorted({**UNSPEC_REASONS, **ACQ_UNSPEC}.items())))
+    ck.assume('unspecified corners (skipped, counted): ' + '; '.join('%s: %s' % kv for kv in sorted({**UNSPEC_REASONS, **NAMES_UNSPEC, **ACQ_UNSPEC}.items())))
     ck.finish(evaluations=evals, distinct_nontrivial=len(classes), skipped_unspecified=skipped, meson_runs=runs,
               rule='(a) every cell of system{absent,1.0,2.0} x constraint{none,>=1.5,>=3} x provider{none,fallback:,wrap [provide],subproject already configured {by subproject(), as the fallback of an earlier lookup of another name} '
                    'x {named by fallback:, by wrap [provide]},override_dependency} x subproject version%s x wrap_mode{default,nofallback,nodownload,forcefallback} x force_fallback_for{[],[dep],[subproject]} '
                    'x required x allow_fallback{unset,true,false}, one real dependency() per cell in its own capsule subproject, compared with the documented '
                    'decision function; a slice re-run as stand-alone projects (exit status; half of them in a cold process); the table again after '
                    'the build directory was first configured under another (wrap_mode, force_fallback_for) pair (quick: to and from the default pair; thorough: all 132 ordered pairs). '
+                   "(a'') lookups with 2 (thorough: 3) names, every name absent / on the system in a low or high version / provided by a wrap (at most one) / overridden, x constraint{none,>=1.5} "
+                   'x subproject version x required x allow_fallback x wrap_mode x force_fallback_for{[],[the provided name],[subproject]}, each followed by an optional lookup of every single name, which must give the same dependency. '
+                   "(a3) 4 spellings of the name (lower case, capitals, punctuation) x {wrap [provide], fallback: [s, var], fallback: 's' with the variable from [provide]} x system x required x 3 wrap modes. "
                    '(b) every sequence <= 3 (see parts.sequences.max_len) of lookups of one name over constraint x required x allow_fallback x native, '
                    'extended only from prefixes that did not fail (a failing lookup ends its capsule). '
                    '(c) FAULT ENUMERATION: {source,patch} x {primary URL, fallback URL after missing/corrupt primary, package cache, packagefiles} x '
